@@ -25,4 +25,4 @@ for pid, n, c, f in rows:
     print("| %s/%s | %s | %s |" % (pid, n, c, f.replace("|", "/")))
 tot = len(rows); miss = sum(1 for r in rows if "missed" in r[2]); out = sum(1 for r in rows if "outside" in r[2])
 sup = sum(1 for r in rows if "later fix" in r[2])
-print("\n%d confirmed seeded changes (wave 1: <n>, wave 2: b<n>, wave 3: c<n>), %d caught by at least one check, %d judged outside the stated domain, %d superseded / neutralised by a later fix: commit, %d missed." % (tot, tot - miss - out - sup, out, sup, miss))
+print("\n%d confirmed seeded changes (wave 1: <n>, wave 2: b<n>, wave 3: c<n>, wave 4: d<n>), %d caught by at least one check, %d judged outside the stated domain, %d superseded / neutralised by a later fix: commit, %d missed." % (tot, tot - miss - out - sup, out, sup, miss))
